@@ -518,14 +518,15 @@ def call (ctx : Ctx α) (k : Kind) (na : Bool) (args : List (Val α)) (vals : Li
           pure (lhs * p)
       | _ => throw Err.valueError
   | .eyringHS => do        -- kB / h * T * backend.exp(-(dH - T * dS) / (R * T)) * c0 ** (1 - reaction.order())
+                           -- (the exponent is `.simplified` first when it is a quantity: no effect on plain numbers)
       match ← aa with
       | [dH, dS, c0] =>
           let t ← ctx.get "temperature"
           let r ← ctx.get "molar_gas_constant"
           let kB ← ctx.get "Boltzmann_constant"
           let h ← ctx.get "Planck_constant"
+          let q ← pyDiv (-(dH - t * dS)) (r * t)      -- `exponent = …` is computed first
           let f ← pyDiv kB h
-          let q ← pyDiv (-(dH - t * dS)) (r * t)
           let lhs := f * t * (← PyNum.exp q)
           let rx ← rxnOf ctx false
           let p ← PyNum.pow c0 (Num.ofInt (1 - order rx))
@@ -551,7 +552,7 @@ def call (ctx : Ctx α) (k : Kind) (na : Bool) (args : List (Val α)) (vals : Li
       match ← aa with
       | [kc] => pure kc
       | _ => throw Err.valueError
-  | .gibbsEqConst => do    -- backend.exp(dS_over_R - dH_over_R / T)
+  | .gibbsEqConst => do    -- backend.exp(dS_over_R - dH_over_R / T)  (exponent `.simplified` first when a quantity)
       match ← aa with
       | [dH, dS] =>
           let t ← ctx.get "temperature"
